@@ -9,7 +9,7 @@ LEVEL = "exploration"
 LEVEL_TEXT = ("TLC re-encodes every recorded request from first principles (WireBytes) and compares byte for byte with the frame the real filler built, the "
               "random fields (ip id, source port, sequence number, icmp id, default icmp payload) being read back from the frame and range-checked: all 2^9 TCP "
               "flag sets through the --flags option table, UDP / ICMP through the commands' option builders (TTL, IP flags, protocol and length overrides, "
-              "type / code, payload lengths 0..49 and 1400 incl. odd lengths), ARP, both link modes, and one filler shared by 8 goroutines. There is no state "
+              "type / code, payload lengths 0..49 and 1400 incl. odd lengths), ARP, both link modes, one filler shared by 8 goroutines, and the frames the real binary puts on a virtual wire (veth / tun) for every command with its default options. There is no state "
               "space: TLA+ is the executable reference (see DESIGN.md section 8).")
 NOTE = ("Trusted: TLC and the reference encoders (validated against frames captured from the real sx on a veth in the design phase); under a length / protocol "
         "override the overridden fields appear verbatim and nothing is demanded of fields that depend on them.")
@@ -62,3 +62,26 @@ def run(ctx):
             rest = [e for e in rest if "C05:%s:%s" % (e["kind"], "vpn" if e["vpn"] else "eth") not in seen]
     for e in events[:2] + events[-1:]:
         ctx.sample({k: (v if k != "bytes" else v[:60]) for k, v in e.items()})
+    # socket-level tier: the frames the real binary puts on the virtual wire (every command's own wiring of interface, --srcip, cache and
+    # filler; Ethernet and raw-IP mode) are the reference encodings too
+    from checks import wire_tier as wt
+    n3, _rej = wt.run_wire(ctx, select=lambda s: s["expect"]["kind"] == "packet" and not s.get("flood") and "chunked" not in s["name"] and "big" not in s["name"],
+                           label="c05w", focus="clean")
+    fills = wt.fill_events(getattr(ctx, "wire_events", []))
+    rest = fills
+    reported = set()
+    while rest:
+        p = os.path.join(ctx.scratch, "c05-wire.ndjson")
+        vf.write_ndjson(p, rest)
+        ok, info = ctx.tlc_trace("WireTrace", p, timeout=3000)
+        if ok:
+            break
+        bad = rest[info["index"] - 1]
+        if bad["run"] not in reported:
+            reported.add(bad["run"])
+            ctx.violation("C05:wire:%s" % bad["run"], "a probe of the real binary on the virtual wire (scenario %s) is not the encoding of its request: req=%s bytes=%s" %
+                          (bad["run"], json.dumps(bad["req"]), bad["bytes"][:80]), replay={"property": "C05", "trace_spec": "WireTrace", "run": [bad]})
+        rest = [e for e in rest[info["index"]:] if e["run"] not in reported]
+    ctx.cov["traces_validated_against_impl"] += len(fills)
+    ctx.count(len(fills), [("wirefill", e["run"], e["id"]) for e in fills])
+    ctx.step("wire-fills", frames=len(fills), runs=n3)
